@@ -276,7 +276,7 @@ def p4(repo, res):
                 h = rules_t1.helper_summary(info["fn"])
             except RecursionError:
                 h = {"restores": set(), "overwrites": {"?"}}
-            if not h["overwrites"] and info["attrs"] <= h["restores"]:
+            if not h["overwrites"] and info["attrs"] <= (h["restores"] | set(h.get("param_restores", {}))):
                 res.ob(f"P4:{q}", both, {"rule": "P4", "writer": q, "writes": sorted(info["attrs"]), "triaged": "pure restoring helper (self-slices only)"})
                 if both:
                     continue
